@@ -14,7 +14,7 @@ CFG = dict(
                  'sync.Map / RWMutex of the registries are taken as linearisable'],
 )
 MANIFEST = dict(
-    text='PARTIAL. Theorem C18_schedule_independent (coq/props/C18.v): for any shared object, any step function that reads but never writes it, any number of threads and every interleaving, each finished call holds exactly the result of running alone and the shared object is unchanged (induction over the schedule); the premise is shown necessary by a refutation with a shared scratch cell. The theorem is INSTANTIATED with the model of a keyset primitive that C05 ties to the code (C18_concurrent_keyset_primitive_calls): shared object = the prefix map built at construction, a Decrypt/Verify call = 'look up the candidates', then 'try the next candidate', one atomic step each; for any keyset, validity predicate, number of concurrent calls, inputs and interleaving, every finished call holds exactly the verdict of the sequential selection rule for its own input and the prefix map is unchanged. That the code satisfies the premise is a regenerated obligation: the translator extracts, from /repo on every run, the write footprint (assignments / append / copy / mutating stdlib calls through the receiver, writes to package variables) of every method of every library type that offers a primitive operation (incl. the prehash and *WithContext operations) and is not a per-stream object, of keyset.Handle and keyset.Entry, and of every key and parameters type (612 methods at the pinned commit), and Coq checks that all footprints are empty. The search for a concrete failing schedule is a hammer built with -race: 16 goroutines use one shared primitive of every class and key type (AEADs, DAEAD, MACs, PRFs, ECDSA/Ed25519/RSA-PSS/RSA-PKCS1/ML-DSA/SLH-DSA signatures, the ML-DSA prehash and prehash signer, HPKE with X25519/P-256/X-Wing/ML-KEM-768, ECIES, streaming AEADs, JWT MAC/signatures, keyset derivation; warmed up and at first use) (and read handles, construct primitives, hit the registries) and every result is compared with the sequential oracle; a race report or a differing result is the violation.',
+    text='PARTIAL. Theorem C18_schedule_independent (coq/props/C18.v): for any shared object, any step function that reads but never writes it, any number of threads and every interleaving, each finished call holds exactly the result of running alone and the shared object is unchanged (induction over the schedule); the premise is shown necessary by a refutation with a shared scratch cell. The theorem is INSTANTIATED with the model of a keyset primitive that C05 ties to the code (C18_concurrent_keyset_primitive_calls): shared object = the prefix map built at construction, a Decrypt/Verify call = look up the candidates, then try the next candidate, one atomic step each; for any keyset, validity predicate, number of concurrent calls, inputs and interleaving, every finished call holds exactly the verdict of the sequential selection rule for its own input and the prefix map is unchanged. That the code satisfies the premise is a regenerated obligation: the translator extracts, from /repo on every run, the write footprint (assignments / append / copy / mutating stdlib calls through the receiver, writes to package variables) of every method of every library type that offers a primitive operation (incl. the prehash and *WithContext operations) and is not a per-stream object, of keyset.Handle and keyset.Entry, and of every key and parameters type (612 methods at the pinned commit), and Coq checks that all footprints are empty. The search for a concrete failing schedule is a hammer built with -race: 16 goroutines use one shared primitive of every class and key type (AEADs, DAEAD, MACs, PRFs, ECDSA/Ed25519/RSA-PSS/RSA-PKCS1/ML-DSA/SLH-DSA signatures, the ML-DSA prehash and prehash signer, HPKE with X25519/P-256/X-Wing/ML-KEM-768, ECIES, streaming AEADs, JWT MAC/signatures, keyset derivation; warmed up and at first use) (and read handles, construct primitives, hit the registries) and every result is compared with the sequential oracle; a race report or a differing result is the violation.',
     note='Trusted: Coq kernel, the syntactic footprint scan, the Go memory model and race detector (which only sees the interleavings that occur), the harness. The theorem is about the abstraction, not about goroutines.',
     technique='Coq proof of schedule independence by induction over interleavings + regenerated write-footprint obligation; race-detector hammer as failing-schedule search',
 )
